@@ -8,7 +8,12 @@ props = [json.loads(l) for l in open(os.path.join(V, "properties.jsonl"))]
 TRUST = "Trusted: rustc type checking/trait resolution/MIR construction (nightly, opt-level 0) as dumped by factgen; the std/hashlink/encoding_rs semantics named in the evidence file's trusted_base."
 
 CLAIMS = {
- "C01": dict(cat="other", tech="abstract interpretation of the scanner MIR over buffered-character bounds (E1, per capacity, one premise-checked relational lemma), forward must-analysis of the token slot, dominance rules, loop/progress classification, panic-site inventory with review table",
+ "C02": dict(cat="proof", tech="disjunctive path/outcome extraction over the MIR of every state-machine handler (E5), role typing against a reviewed table, dispatch extraction, who-may-write inventories, def-use of anchor ids",
+   text="Proof, for arbitrary token sequences, that every non-error outcome of every handler instance (24 instances, ~200 outcomes: token-kind constraint, push/pop sequence, state written, event or tail call) fits the role of the state it serves; with the one-paragraph-per-role induction this gives the event grammar of the property and shows pop_state never meets an empty stack. Also: every State is dispatched, State::End is answered before dispatch, no unreachable!() is reachable with a satisfiable token constraint, the stack has single writers, anchor ids start at 1, increase by one per anchor, are registered pre-increment only in register_anchor, alias ids come out of the anchor table. Not decided: that the scanner's tokens make the right sentence for a text (C03).",
+   design="DESIGN.md §4 C02", note="Paper step roles => grammar (docstring of rules/C02.py); borrow discipline makes the fetched token the peeked one. " + TRUST),
+ "C06": dict(cat="proof", tech="dropped-Result def-use rule, dominance + must-reach-Err for enumerated guards, E5 acceptance sets compared with a confirmed table",
+   text="Proof of the structural clauses: none of the ~180 Result<_, ScanError>-returning call sites in scanner/parser/loader/input drops its result; Scanner::next tests the latched error first and latches every Err, a None from the scanner always becomes an Err in the parser; for each of 16 enumerated guards (open quote at end of stream, document indicator in quotes, content after '...', invalid indentation, stale/required simple key x3, tab indentation x2, unknown/truncated/invalid escape x3, unknown alias, repeated %YAML, directive without '...', flow nesting limit) the guarded edge reaches an error on every path; per handler instance and token position the set of token kinds with a non-error outcome has not grown beyond the confirmed table. Not decided: that every damaged text reaches one of these guards.",
+   design="DESIGN.md §4 C06", note="Errors travel only through Result values; the reading that maps the property's list to the guards. " + TRUST), "C01": dict(cat="other", tech="abstract interpretation of the scanner MIR over buffered-character bounds (E1, per capacity, one premise-checked relational lemma), forward must-analysis of the token slot, dominance rules, loop/progress classification, panic-site inventory with review table",
    text="For every analysed capacity (quick 8/16/128; thorough 8/9/15/16/17/64/128/1024) every peek/peek_nth/skip/skip_n/raw read of the scanner and of the provided Input methods is covered by a prior lookahead and no request exceeds the capacity (all inputs, all paths); the in-repo inputs advertise enough capacity; fetch_token is only reached with the peek slot filled; skip_ws_to_eol/as_hex/flow_level/simple_keys preconditions hold by dominance; every natural loop of scanner, inputs, parser and loader has a progress step on every cycle (two relational loops are reviewed exceptions, ten loops only have a may-consume step) and every non-error return of fetch_next_token consumed or queued something; all remaining panic-capable constructs on the parsing paths are discharged mechanically (length tests, constant divisors, usize counters) or covered by the reviewed per-(function, kind) table, so a new unwrap/index/arith site is reported. A review gate, not a proof of panic freedom: invariants I1-I5 are reviewed, linear time is not decided.",
    design="DESIGN.md §4 C01", note="The documented contract of trait Input; finiteness of std iterators; invariants I1-I5 of tables/panic_review_parse.json; the two reviewed loop exceptions. " + TRUST), "C11": dict(cat="other", tech="call-graph and type-graph SCC analysis (Tarjan) over resolved MIR callees; depth-guard dominance; who-may-write inventory of flow_level",
    text="Every recursion cycle of both crates (resolved call graph incl. trait fan-out, closures, fn items as values) and every recursive node type x structural trait used by load/drop is enumerated; each must be cut by a depth guard or is reported. Today 6 call cycles and 22 type x trait recursions are genuine, unrepaired defects (known findings, one key each); any new cycle, any cycle entering the pull parser/scanner/loader handler, or loss of the checked_add bound on flow depth is a new violation. Frame sizes are not computed.",
